@@ -288,6 +288,10 @@ func runC16(c *Ctx, r *Run) {
 	r.Require("SPEC-NEG", 6)
 	r.Require("DEC-1", 4)
 	r.Require("ETH-1", 5)
+	// standard ECDSA conversion of digests of any length (shared with C01)
+	r.Rule("FH-1", "hash-to-scalar: excess bits from the converted slice; one conversion function on every ECDSA path")
+	checkFromHash(c, r)
+	r.Require("FH-1", 8)
 }
 
 // checkTaggedHashShape: abstract byte-stream written into the hasher of TaggedHash.
